@@ -1,9 +1,40 @@
-import Lean.Data.Json
-/-! Driver handlers for property C15: `handle op request` answers one JSON request. -/
-namespace Pydjinni.Drv.C15
-open Lean
+import PydjinniModel.Drv.SysJson
+import PydjinniModel.Gen.Collide
+/-!
+Driver handlers for property C15.
 
-def handle (op : String) (_req : Json) : Except String Json :=
-  throw s!"unknown op {op}"
+* `c15.names` — predicted write list (paths as written) of a run and the predicted collisions with their cause
+* `c15.spec`  — "no path with two different digests" on the implementation's write log
+-/
+namespace Pydjinni.Drv.C15
+open Lean Pydjinni.Gen Pydjinni.Sys Pydjinni.Drv.SysJson
+
+def names (req : Json) : Except String Json := do
+  let gens ← req.getObjVal? "gens" >>= decodeGens
+  let ts ← getStrs req "targets"
+  let targets ← ts.mapM decodeT
+  let supportLib ← req.getObjValAs? Bool "supportLib"
+  let support ← req.getObjVal? "support" >>= decodeSupport
+  let defs ← decodeDecls req "defs"
+  let gs := targets.flatMap T.generators
+  let per := gs.filterMap (fun g => (gens g).map (fun c => (g, c)))
+  let writes := per.flatMap (fun (g, c) => (genWrites g c c (if supportLib then support g else []) defs).map (fun w => w.2.toString))
+  let cols := per.flatMap (fun (g, c) => collisions g c c defs)
+  pure (Json.mkObj [
+    ("writes", strsJ writes),
+    ("collisions", Json.arr (cols.map (fun c => Json.mkObj [
+      ("g", c.g.key), ("kind", kindJ c.kind), ("path", pathJ c.path), ("first", c.first), ("second", c.second),
+      ("cause", c.cause.key)])).toArray)])
+
+def spec (req : Json) : Except String Json := do
+  let lg ← req.getObjValAs? (Array (Array String)) "log"
+  let log := lg.toList.map (fun e => (e.getD 0 "", e.getD 1 ""))
+  pure (Json.mkObj [("holds", noOverwrite log), ("overwritten", strsJ (overwritten log))])
+
+def handle (op : String) (req : Json) : Except String Json :=
+  match op with
+  | "c15.names" => names req
+  | "c15.spec" => spec req
+  | _ => throw s!"unknown op {op}"
 
 end Pydjinni.Drv.C15
